@@ -11,6 +11,8 @@ from fractions import Fraction
 
 from labella.scale import LinearScale, TimeScale
 
+import guard
+
 EPOCH = dt.datetime(1970, 1, 1)
 MS = dt.timedelta(milliseconds=1)
 LO, HI = dt.datetime(1900, 1, 1), dt.datetime(2199, 12, 31, 23, 59, 59, 999000)
@@ -89,11 +91,13 @@ def used_scale(d0, d1, pre):
 def ticks_record(d0, d1, m, pre=None, default=False):
     rec = {"kind": "tticks", "dom": [proj(d0), proj(d1)], "m": m, "ticks": [], "err": ""}
     try:
-        s, d0, d1 = used_scale(d0, d1, pre)
+        with guard.limit(60):
+            s, d0, d1 = used_scale(d0, d1, pre)
         rec["dom"] = [proj(d0), proj(d1)]
         if pre:
             rec["pre"] = list(pre)
-        rec["ticks"] = [proj(t) for t in (s.ticks() if default and m == 10 else s.ticks(m))]
+        with guard.limit(60):
+            rec["ticks"] = [proj(t) for t in (s.ticks() if default and m == 10 else s.ticks(m))]
     except OutOfScope:
         return None
     except Exception as ex:
@@ -105,7 +109,8 @@ def nice_record(d0, d1, m, pre=None):
     mm = 10 if m is None else m
     rec = {"kind": "tnice", "dom": [proj(d0), proj(d1)], "m": mm, "ticks": [], "niced": [[0, 0, 0], [0, 1, 0]], "err": ""}
     try:
-        s, d0, d1 = used_scale(d0, d1, pre)
+        with guard.limit(60):
+            s, d0, d1 = used_scale(d0, d1, pre)
         if pre:
             rec["pre"] = list(pre)
             rec["dom"] = [proj(d0), proj(d1)]
@@ -117,14 +122,16 @@ def nice_record(d0, d1, m, pre=None):
         rec["err"] = type(ex).__name__
         return rec
     try:
-        rec["ticks"] = [proj(t) for t in TimeScale().domain([d0, d1]).ticks(mm)]
+        with guard.limit(60):
+            rec["ticks"] = [proj(t) for t in TimeScale().domain([d0, d1]).ticks(mm)]
     except Exception:
         rec["ticks"] = []
     try:
-        if m is None:
-            s.nice()
-        else:
-            s.nice(m)
+        with guard.limit(60):
+            if m is None:
+                s.nice()
+            else:
+                s.nice(m)
         rec["niced"] = [proj(x) for x in s.domain()]
     except Exception as ex:
         rec["err"] = type(ex).__name__
